@@ -54,9 +54,6 @@ func NewProcessor(queue chan Operator, buffer int, threads int) (p *Processor) {
 					p.out <- Result{nil, fmt.Errorf("concurrent: processor panic: %v", err)}
 				}
 				p.work <- struct{}{}
-				if len(p.work) == p.threads {
-					close(p.out)
-				}
 				p.wg.Done()
 			}()
 
@@ -73,6 +70,12 @@ func NewProcessor(queue chan Operator, buffer int, threads int) (p *Processor) {
 			}
 		}()
 	}
+
+	// Close the result channel exactly once, after every worker has exited.
+	go func() {
+		p.wg.Wait()
+		close(p.out)
+	}()
 
 	return
 }
